@@ -698,8 +698,18 @@ def pattern_case(draw, xpath: bool, nsubj: int = 8, xml_only: bool = False, flag
                  extra_chars=()):
     ver = draw(st.sampled_from(['1.0', '1.1']))
     flags = draw(st.sampled_from(flag_sets or FLAG_SETS)) if xpath else ''
-    state = _State(xpath, flags, draw(st.integers(1, max_atoms)))
-    ast = _gen_regexp(draw, state, 0)
+    if xpath and 'x' not in flags and draw(st.integers(0, 99)) < 3:
+        # many groups: multi-digit back-references (\\10 vs \\1 followed by '0')
+        ng = draw(st.integers(9, 12))
+        letters = 'abcdefghijkl'
+        items = [['grp', ['seq', [['lit', letters[k]]]]] for k in range(ng)]
+        items.append(['ref', draw(st.integers(1, ng))])
+        if draw(st.booleans()):
+            items.append(['lit', draw(st.sampled_from('0123'))])
+        ast = ['seq', items]
+    else:
+        state = _State(xpath, flags, draw(st.integers(1, max_atoms)))
+        ast = _gen_regexp(draw, state, 0)
     subs = draw(subjects_for(ast, xpath, flags, nsubj, xml_only, extra_chars))
     return {'ast': ast, 'flags': flags, 'xpath': xpath, 'ver': ver, 'subjects': subs}
 
